@@ -509,6 +509,12 @@ func postprocessParsed(lookup objLookup) {
 	for _, l := range lookup["ip access-list extended"] {
 		for _, c := range l[0].sub {
 			postprocessIOSACL(c)
+			// Register prefix of up to five referenced object-groups,
+			// such that unknown object-group is reported.
+			c.typ.ref = []string{
+				"object-group", "object-group", "object-group",
+				"object-group", "object-group",
+			}
 		}
 	}
 	// Move crypto map interface commands to different prefix for
